@@ -191,7 +191,7 @@ def simulate(cfg_name, num, depth, seed, module="MC_Eco", timeout=900, procs=Non
 
 
 # ---------------------------------------------------------------- behaviours -> harness
-def behaviours_to_ndjson(behs, path, profiles, seed, idprefix="b", observers=None, family="eco", probes=0):
+def behaviours_to_ndjson(behs, path, profiles, seed, idprefix="b", observers=None, family="eco", probes=0, fine=False):
     """behs: list of state lists (from TLC).  Writes one behaviour per line.
     observers: None | "export" (ExportImport steps sprinkled in and at the end) |
     "replica" (random restarts at block boundaries, replicas at the end)."""
@@ -221,6 +221,8 @@ def behaviours_to_ndjson(behs, path, profiles, seed, idprefix="b", observers=Non
                  "family": family, "steps": steps}
             if probes and family == "eco" and not observers:
                 b["probes"] = probes
+            if fine and family == "eco" and i % 2 == 1:
+                b["fine"] = True          # market time domain with a sub-second part (harness/names.go)
             if family == "data":
                 d0 = states[0]["dst"]
                 b["genesis"] = "default"
